@@ -7,6 +7,7 @@ import (
 	"errors"
 	"fmt"
 	"math"
+	"os"
 	"sort"
 	"strconv"
 	"strings"
@@ -18,6 +19,7 @@ import (
 	sdk "github.com/cosmos/cosmos-sdk/types"
 
 	randommod "mods.irisnet.org/modules/random"
+	servicemod "mods.irisnet.org/modules/service"
 	randomtypes "mods.irisnet.org/modules/random/types"
 	servicetypes "mods.irisnet.org/modules/service/types"
 
@@ -30,14 +32,20 @@ const providerAcc = 5
 type R struct {
 	env *hx.Env
 	// generator-only memory of the current history (never read by Exec)
-	txs  []string
-	ctxs []string
+	txs   []string
+	ctxs  []string
+	ended bool // the service module's EndBlocker already ran at the current height
 }
 
-// New prepares the environment once: the random service definition, one provider binding
-// (so that RequestService can create contexts), funded consumers A0..A2 (A3 stays poor).
-func New(env *hx.Env) *R {
-	ctx := env.Base
+// New needs only the environment (it is also registered in mods/all).
+func New(env *hx.Env) *R { return &R{env: env} }
+
+// setup prepares a history's fork: the random service definition, one provider binding (so
+// that RequestService can create contexts), the per-block context index the service module's
+// BeginBlocker maintains, funded consumers A0..A2 (A3 has nothing). Nothing is written to the
+// shared base state.
+func (r *R) setup(ctx sdk.Context) {
+	env := r.env
 	env.Service.SetServiceDefinition(ctx, servicetypes.GetRandomSvcDefinition())
 	p := hx.Acc(providerAcc)
 	env.Fund(ctx, p, sdk.NewCoins(sdk.NewCoin(sdk.DefaultBondDenom, sdkmath.NewInt(100000000))))
@@ -47,10 +55,16 @@ func New(env *hx.Env) *R {
 		hx.Fail("bind random service: %v", err)
 	}
 	env.Service.SetInternalIndex(ctx, 0)
-	for i := 0; i < 3; i++ {
-		env.Fund(ctx, hx.Acc(i), sdk.NewCoins(sdk.NewCoin(sdk.DefaultBondDenom, sdkmath.NewInt(1000000))))
+	// a short request timeout (a governance parameter) lets batches expire inside a history
+	sp := env.Service.GetParams(ctx)
+	sp.MaxRequestTimeout = 6
+	if err := env.Service.SetParams(ctx, sp); err != nil {
+		hx.Fail("service params: %v", err)
 	}
-	return &R{env: env}
+	// A0, A1 rich; A2 can pay two service calls, then its contexts pause for insufficient balance
+	for i, amt := range []int64{1000000, 1000000, 120} {
+		env.Fund(ctx, hx.Acc(i), sdk.NewCoins(sdk.NewCoin(sdk.DefaultBondDenom, sdkmath.NewInt(amt))))
+	}
 }
 
 func (r *R) Module() string { return "random" }
@@ -102,9 +116,10 @@ func unhex(s string) []byte {
 
 func (r *R) Reset(ctx sdk.Context, line string) (sdk.Context, string) {
 	a := hx.Args(strings.Fields(line)[2:])
-	r.txs, r.ctxs = nil, nil
+	r.txs, r.ctxs, r.ended = nil, nil, false
+	r.setup(ctx)
 	ctx = header(ctx, i64(a["h"]), i64(a["t"]), unhex(a["hash"]))
-	return ctx, "ok " + r.state(ctx)
+	return ctx, "ok " + r.State(ctx)
 }
 
 func (r *R) store(ctx sdk.Context) storetypes.KVStore {
@@ -147,9 +162,9 @@ func (r *R) oracleCtxs(ctx sdk.Context) map[string]bool {
 	return m
 }
 
-// state renders the three tables of the random store from the raw store, in canonical
+// State renders the three tables of the random store from the raw store, in canonical
 // order, and cross-checks them against the keeper's iterators and the gRPC query server.
-func (r *R) state(ctx sdk.Context) string {
+func (r *R) State(ctx sdk.Context) string {
 	k := r.env.Random
 	var qs, rs, os []string
 	bad := ""
@@ -244,15 +259,15 @@ func (r *R) Exec(ctx sdk.Context, line string) (sdk.Context, string) {
 	case "begin_block":
 		nctx, panicked := r.beginBlock(ctx, a)
 		if panicked {
-			return ctx, "panic " + r.state(ctx)
+			return ctx, "panic " + r.State(ctx)
 		}
-		return nctx, "ok " + r.state(nctx)
+		return nctx, "ok " + r.State(nctx)
 	case "request":
 		out := r.env.Deliver(ctx.WithTxBytes(unhex(a["tx"])), r.requestMsg(a, false))
-		return ctx, out.Class + " " + r.state(ctx)
+		return ctx, out.Class + " " + r.State(ctx)
 	case "request_oracle":
 		out := r.env.Deliver(ctx.WithTxBytes(unhex(a["tx"])), r.requestMsg(a, true))
-		return ctx, out.Class + " " + r.state(ctx)
+		return ctx, out.Class + " " + r.State(ctx)
 	case "cb_response":
 		id := tmbytes.HexBytes(unhex(a["ctx"]))
 		var outs []string
@@ -268,11 +283,32 @@ func (r *R) Exec(ctx sdk.Context, line string) (sdk.Context, string) {
 			e = errors.New("batch 1 at least 1 valid outputs required, but 0 received")
 		}
 		class, _ := hx.Try(ctx, func(c sdk.Context) error { r.env.Random.HandlerResponse(c, id, outs, e); return nil })
-		return ctx, class + " " + r.state(ctx)
+		return ctx, class + " " + r.State(ctx)
 	case "cb_state":
 		id := tmbytes.HexBytes(unhex(a["ctx"]))
 		class, _ := hx.Try(ctx, func(c sdk.Context) error { r.env.Random.HandlerStateChanged(c, id, "insufficient balances"); return nil })
-		return ctx, class + " " + r.state(ctx)
+		return ctx, class + " " + r.State(ctx)
+	case "svc_end_block":
+		// the real service module's EndBlocker at the current height: initiates the requests of
+		// started contexts, expires batches (response callback with an error), pauses contexts
+		// whose consumer cannot pay (state callback)
+		class, info := hx.Try(ctx, func(c sdk.Context) error { servicemod.EndBlocker(c, r.env.Service); return nil })
+		if class == hx.Panic {
+			fmt.Fprintln(os.Stderr, "svc_end_block panic:", info)
+		}
+		return ctx, class + " " + r.State(ctx)
+	case "svc_respond":
+		// the provider answers the active request of a context through the message router; the
+		// service module then calls the random module's response callback itself
+		id := tmbytes.HexBytes(unhex(a["ctx"]))
+		reqID := r.activeRequest(ctx, id)
+		if reqID == "" {
+			return ctx, "rej " + r.State(ctx)
+		}
+		out := r.env.Deliver(ctx.WithTxBytes([]byte("respond"+a["ctx"])), &servicetypes.MsgRespondService{
+			RequestId: reqID, Provider: hx.Acc(providerAcc).String(), Result: `{"code":200,"message":""}`,
+			Output: fmt.Sprintf(`{"header":{},"body":{"seed":"%s"}}`, a["seed"])})
+		return ctx, out.Class + " " + r.State(ctx)
 	case "prng":
 		val := ""
 		p, _ := hx.NoPanic(func() {
@@ -286,6 +322,63 @@ func (r *R) Exec(ctx sdk.Context, line string) (sdk.Context, string) {
 	}
 	hx.Fail("unknown op %q", line)
 	return ctx, ""
+}
+
+// activeRequest returns the id (hex) of the first active request of a context's current batch.
+func (r *R) activeRequest(ctx sdk.Context, id tmbytes.HexBytes) string {
+	rc, found := r.env.Service.GetRequestContext(ctx, id)
+	if !found {
+		return ""
+	}
+	res := ""
+	r.env.Service.IterateActiveRequests(ctx, id, rc.BatchCounter, func(requestID tmbytes.HexBytes, _ servicetypes.Request) {
+		if res == "" {
+			res = requestID.String()
+		}
+	})
+	return res
+}
+
+func (r *R) existing(ctx sdk.Context) map[string]bool {
+	m := map[string]bool{}
+	for _, c := range r.ctxs {
+		if _, found := r.env.Service.GetRequestContext(ctx, tmbytes.HexBytes(unhex(c))); found {
+			m[c] = true
+		}
+	}
+	return m
+}
+
+func sortedKeys(m map[string]bool) []string {
+	var ks []string
+	for k := range m {
+		ks = append(ks, k)
+	}
+	sort.Strings(ks)
+	return ks
+}
+
+// genSvcEndBlock: the outcome of the service EndBlocker for this module (which oracle requests
+// its callbacks dropped, which contexts ceased to exist) is read off a dry run.
+func (r *R) genSvcEndBlock(ctx sdk.Context) string {
+	r.ended = true
+	before, exBefore := r.oracleCtxs(ctx), r.existing(ctx)
+	cc, _ := ctx.CacheContext()
+	var dropped, gone []string
+	if p, _ := hx.NoPanic(func() { servicemod.EndBlocker(cc, r.env.Service) }); !p {
+		after, exAfter := r.oracleCtxs(cc), r.existing(cc)
+		for _, c := range sortedKeys(before) {
+			if !after[c] {
+				dropped = append(dropped, c)
+			}
+		}
+		for _, c := range sortedKeys(exBefore) {
+			if !exAfter[c] {
+				gone = append(gone, c)
+			}
+		}
+	}
+	return "random svc_end_block dropped=" + dash(strings.Join(dropped, ",")) + " gone=" + dash(strings.Join(gone, ","))
 }
 
 // ---------------------------------------------------------------- generator
@@ -335,8 +428,42 @@ func (r *R) genConsumer(g *hx.Rng) string {
 }
 
 func (r *R) Gen(ctx sdk.Context, g *hx.Rng) string {
-	switch g.Pick(30, 40, 8, 7, 2, 8) {
+	kind := g.Pick(30, 40, 8, 7, 2, 8, 8)
+	if kind == 0 && !r.ended {
+		// a block ends with the service module's EndBlocker before the next one begins
+		return r.genSvcEndBlock(ctx)
+	}
+	switch kind {
+	case 6:
+		// a provider response through the real service module, to a started oracle request
+		pend := sortedKeys(r.oracleCtxs(ctx))
+		if len(pend) == 0 {
+			if !r.ended && g.Chance(1, 3) {
+				return r.genSvcEndBlock(ctx)
+			}
+			return ""
+		}
+		c := pend[g.Intn(len(pend))]
+		seed := hex.EncodeToString(g.Bytes(32))
+		if g.Chance(1, 3) {
+			seed = strings.ToUpper(seed)
+		}
+		l := fmt.Sprintf("random svc_respond ctx=%s seed=%s", c, seed)
+		cb := "rej"
+		cc, _ := ctx.CacheContext()
+		nBefore := len(r.oracleCtxs(cc))
+		_, obs := r.Exec(cc, l+" cb=0")
+		switch {
+		case strings.HasPrefix(obs, "panic"):
+			cb = "1" // the callback ran and divided by the zero block time
+		case strings.HasPrefix(obs, "ok") && len(r.oracleCtxs(cc)) < nBefore:
+			cb = "1"
+		case strings.HasPrefix(obs, "ok"):
+			cb = "0"
+		}
+		return l + " cb=" + cb
 	case 0:
+		r.ended = false
 		h := ctx.BlockHeight() + 1
 		if ctx.BlockHeight() == math.MaxInt64 {
 			return ""
@@ -350,7 +477,7 @@ func (r *R) Gen(ctx sdk.Context, g *hx.Rng) string {
 		case 3:
 			t = -g.Range(1, 1000000)
 		case 4:
-			t = g.Range(1, 1<<40)
+			t = g.Range(1, 253402300799) // protobuf timestamps end with year 9999
 		}
 		hash := hex.EncodeToString(g.Bytes([]int{32, 32, 32, 0, 1, 20}[g.Intn(6)]))
 		l := fmt.Sprintf("random begin_block h=%d t=%d hash=%s", h, t, dash(hash))
